@@ -134,6 +134,7 @@ def run_case(case, rec):
     if case.get('pkg'):
         for part in case['pkg'].split('+'): rec.hit('pkg:' + part)
     cls = input_class(case)
+    rec.hit('class:' + cls)      # denominators of the per-class rate bounds of the recorded dew / bubble findings
     rec.hit('pkg:ideal' if case['ideal'] else 'pkg:dortmund')
     try:
         bp = eq.BubblePoint(chems, th); dp = eq.DewPoint(chems, th)
